@@ -6,25 +6,26 @@ From Ink.Engine Require Export Step.
 
 Section Continue.
 Variable I : iface.
+Variable sw : switches.
 
 (* ---------- snapshot / restore / discard ---------- *)
 (* copy_and_start_patching(false): the copy differs from the original only in
    the fresh patch (both copies of it) and in the alias entry put into
    named_flows (D12) — controlled by the regenerated switch [alias_current]. *)
-Definition copy_and_start_patching (alias_current : bool) (s : sstate) : sstate :=
+Definition copy_and_start_patching (s : sstate) : sstate :=
   let p := match ss_patch s with Some p => p | None => patch_new end in
   let named := match ss_named s with
                | Some nf =>
-                   if alias_current then
+                   if sw_alias_current sw then
                      Some (assoc_set (fl_name (ss_flow s)) ((ss_flow s) <| fl_alias_cs := true |>) nf)
                    else Some nf
                | None => None
                end in
   s <| ss_patch := Some p |> <| ss_vars ::= fun v => v <| vs_patch := Some p |> |> <| ss_named := named |>.
 
-Definition state_snapshot (alias_current : bool) : M unit :=
+Definition state_snapshot : M unit :=
   modify (fun w => w <| w_snapshot := Some (w_state w) |>
-                     <| w_state ::= copy_and_start_patching alias_current |>).
+                     <| w_state ::= copy_and_start_patching |>).
 
 (* restore_state_snapshot: `.as_mut().unwrap()` *)
 Definition restore_state_snapshot : M unit :=
@@ -57,16 +58,15 @@ Definition newline_output_state_change (prev cur : text) (prev_tags cur_tags : n
   else if forallb (fun b => N.eqb b c_space || N.eqb b c_tab) (skipn pl cb) then NoChange
   else ExtendedBeyondNewline.
 
-Variable alias_current : bool.
 
 (* ---------- continue_single_step ---------- *)
 Definition m_can_continue : M bool := m_read ss_can_continue.
 
 Definition continue_single_step : M bool :=
-  let* _ := step I in
+  let* _ := step I sw in
   let* can := m_can_continue in
   let* from_game := m_read (fun s => cs_elem_is_eval_from_game (ss_cs s)) in
-  let* _ := when (negb can && negb from_game) (try_follow_default_invisible_choice I) in
+  let* _ := when (negb can && negb from_game) (try_follow_default_invisible_choice I sw) in
   let* s := get_state in
   if in_string_evaluation s then ret false else
   let* w := get in
@@ -94,7 +94,7 @@ Definition continue_single_step : M bool :=
        if can2 then
          let* w2 := get in
          match w_snapshot w2 with
-         | None => state_snapshot alias_current
+         | None => state_snapshot
          | Some _ => ret tt
          end
        else discard_snapshot
@@ -163,11 +163,9 @@ Definition notify_variable_changed (name : text) (v : value) : M unit :=
   | None => ret tt
   end.
 
-(* delivery block at the end of continue_internal.  [warnings_cleared] is the
-   regenerated fact "reset_errors also clears current_warnings" (D9). *)
-Variable warnings_cleared : bool.
-Definition reset_errors : M unit :=
-  mod_state (fun s => (s <| ss_errors := [] |>) <| ss_warnings ::= fun l => if warnings_cleared then [] else l |>).
+(* delivery block at the end of continue_internal *)
+Definition reset_errors : M unit := mod_state (fun s => s <| ss_errors := [] |>).
+Definition reset_warnings : M unit := mod_state (fun s => s <| ss_warnings := [] |>).
 
 Definition deliver_errors : M unit :=
   let* w := get in
@@ -176,7 +174,8 @@ Definition deliver_errors : M unit :=
     if w_handler w then
       let* _ := mfor (ss_errors s) (fun m => log_event (EvHandler true m)) in
       let* _ := mfor (ss_warnings s) (fun m => log_event (EvHandler false m)) in
-      reset_errors
+      let* _ := reset_errors in
+      when (sw_warnings_cleared sw) reset_warnings
     else if ss_has_error s then fail InvalidState "Ink had errors. The first issue was: ..."
     else reset_errors
   else ret tt.
@@ -185,13 +184,18 @@ Definition step_budget (w : world) : nat := S (N.to_nat (w_fuel w)).
 
 (* Story::continue_internal; [limited] = millisecs_limit_async > 0 *)
 Definition continue_internal (limited : bool) : M unit :=
+  let* w00 := get in
+  let* can0 := m_can_continue in
+  if sw_cont_check_first sw && negb (w_async w00) && negb can0
+  then fail InvalidState "Can't continue - should check can_continue before calling Continue" else
   let* _ := modify (fun w => w <| w_rcc ::= N.succ |>) in
   let* w := get in
   let* _ :=
     (if negb (w_async w) then
        let* _ := modify (fun w => w <| w_async := limited |>) in
        let* can := m_can_continue in
-       if negb can then fail InvalidState "Can't continue - should check can_continue before calling Continue" else
+       if negb (sw_cont_check_first sw) && negb can
+       then fail InvalidState "Can't continue - should check can_continue before calling Continue" else
        let* _ := mod_state (fun s => reset_output [] (s <| ss_safe_exit := false |>)) in
        let* w1 := get in
        when (N.eqb (w_rcc w1) 1) (mod_state (fun s => s <| ss_vars ::= vs_start_observation |>))
